@@ -65,9 +65,10 @@ def default_bmc(seed=1, **kw):
     return b
 
 
-def run_scenarios(scns, shards=16):
+def run_scenarios(scns, shards=16, spread=False):
+    """spread: one harness process per scenario even for a handful (scenarios that spend their time waiting)"""
     lines = ["scn " + json.dumps(s, separators=(",", ":")) for s in scns]
-    if len(lines) >= 32:
+    if len(lines) >= 32 or (spread and len(lines) > 1):
         import concurrent.futures as cf
         size = (len(lines) + shards - 1) // shards
         chunks = [lines[i:i + size] for i in range(0, len(lines), size)]
@@ -145,7 +146,7 @@ def check_cmd_step(ch, fam, step, res, model, desc):
         want = OUTCOME_ERR[m["outcome"]]
         # "silence": no reply until the caller's context ends; the model's script reads that attempt as a transport failure
         # (outcome 2) where the library reports the context's own error
-        silent = want == "lost" and "silence" in res.get("actions", []) and go_err == "deadline"
+        silent = want == "lost" and go_err == "deadline" and ("silence" in res.get("actions", []) or (res.get("delivered") or ["x"])[-1] == "")
         if go_err != want and not (want == "other" and go_err != "nil") and not silent:
             ok = False; why.append("model outcome %d, impl error %s" % (m["outcome"], go_err))
     if not ok:
